@@ -506,6 +506,35 @@ prop("C18",
      note="trusts ThreadSanitizer (clang 14)",
      design_ref="DESIGN.md#c18")
 
+
+# ----------------------------------------------------------------------------- C19 (Arduino port)
+import glob as _glob
+def _ard_dir(): return os.path.join(skv.REPO, "arduino", "libraries", "Skinny")
+def _ard_headers(): return sorted(_glob.glob(os.path.join(_ard_dir(), "*.h")) + _glob.glob(os.path.join(_ard_dir(), "utility", "*.h")))
+def _ard_srcs():
+    d = _ard_dir()
+    return [(os.path.join(d, f), "g++", ["-std=gnu++17", "-I" + d], _ard_headers())
+            for f in ("BlockCipher.cpp", "CTR.cpp", "Cipher.cpp", "Crypto.cpp", "Mantis8.cpp", "Skinny128.cpp", "Skinny64.cpp")]
+
+prop("C19",
+     units=lambda tier: [Unit("c19", "c19.cpp", SHIPPED, cases=scale(tier, 2500, 80000), shards=16,
+                              hflags=lambda: ["-I" + _ard_dir()], hdeps=_ard_headers, ext_srcs=_ard_srcs)],
+     level="exploration",
+     rule=("per case one of the 11 block-cipher classes (Skinny128_128/256/384, Skinny128_256/384_Tweaked, Skinny64_64/128/192, "
+           "Skinny64_128/192_Tweaked, Mantis8) or CTR<T> over the five Skinny-128 classes, and a history of 3-24 calls: setKey "
+           "(class key size), setTweak(block-size bytes | NULL), Mantis8 swapModes, encryptBlock / decryptBlock, clear (after which "
+           "only setKey is generated - the documented way to reuse), CTR setIV / encrypt / decrypt with arbitrary cuts; oracle = the C "
+           "library object of the corresponding variant driven by the corresponding calls: equal outputs and equal accept/reject "
+           "results; non-trivial = a block operation after >= 2 tweak changes, or after a swap following a tweak change, or a CTR "
+           "call whose length is not a multiple of 16"),
+     assumptions=BUILD_ASSUME + ["the portable (#else of USE_AVR_INLINE_ASM) C++ path is compiled unchanged with the host g++; the AVR inline-assembly path is out of reach on the host (stated in the property)",
+                  "setCounterSize(n < 16), wrong key lengths and setTweak before setKey are not generated: the C API has no counterpart / the Arduino documentation excludes them"],
+     technique="differential stateful property-based testing (rapidcheck): Arduino classes vs the C library on identical call histories",
+     text=("Generated per-class call histories executed by the Arduino class and by the C library must agree on every output and "
+           "accept/reject decision. Sampling of histories; host build of the portable path only."),
+     note="differential: trusts neither side alone; the C side is tied to the specification by C01-C05",
+     design_ref="DESIGN.md#c19")
+
 # ----------------------------------------------------------------------------- generic entry points
 def run(pid, tier, seed, replay):
     p = PROPS[pid]
@@ -534,5 +563,6 @@ def harness_jobs():
                 for h in u.harness:
                     ccomp = "gcc" if "g++" in u.cxx else "clang"
                     cxx = u.cxx if h.endswith(".cpp") else ccomp
-                    jobs[(h, cxx, tuple(u.hflags))] = (h, cxx, list(u.hflags))
+                    hf = u.hflags() if callable(u.hflags) else u.hflags
+                    jobs[(h, cxx, tuple(hf))] = (h, cxx, list(hf), u.hdeps() if u.hdeps else ())
     return list(jobs.values())
